@@ -18,6 +18,7 @@ import (
 	"verif/harness/props/c13"
 	"verif/harness/props/c14"
 	"verif/harness/props/c15"
+	"verif/harness/props/c16"
 	"verif/harness/props/c17"
 	"verif/harness/props/c18"
 	"verif/harness/props/c19"
@@ -42,6 +43,7 @@ func Specs() map[string]*core.Spec {
 		c13.Spec(),
 		c14.Spec(),
 		c15.Spec(),
+		c16.Spec(),
 		c17.Spec(),
 		c18.Spec(),
 		c19.Spec(),
